@@ -4,3 +4,4 @@ import MtailVerif.Props.C18
 #print axioms MtailVerif.C18.never_two_streams_per_path
 #print axioms MtailVerif.C18.append_delivers_once
 #print axioms MtailVerif.C18.pending_settled_at_poll
+#print axioms MtailVerif.C18.tailer_shape
